@@ -25,6 +25,11 @@ package k8s_plugins
 //@   ensures podStateOf(keyUID(key)) == nil
 //@ end
 
+// (*K8sPlugins) implements plugins.Plugin: PreBind / PostBind / Rollback are PROVED against the clauses the assumed
+// interface contract plugins.Plugin.<Method> promises at the invoke sites in (*BinderPlugins) (frame within fields(pod):
+// only pod.Spec.NodeName is written; pod identity kept; Rollback keeps pod.Labels - tagged [iface-Plugin.*]) plus the
+// property-derived clauses over the ghosts of this file and of k8s-plugins/common (outside Plugin.*'s frame, mentioned
+// by no caller-side contract).
 //@ define pluginsOK(p *K8sPlugins) bool = forall i int :: 0 <= i && i < len(p.plugins) ==> p.plugins[i] != nil
 // New registers "VolumeBinding" and "DynamicResources": distinct names (the skip table is keyed by name)
 //@ define namesDistinct(p *K8sPlugins) bool = forall i int, j int :: 0 <= i && i < j && j < len(p.plugins) ==> common.pluginName(p.plugins[i]) != common.pluginName(p.plugins[j])
@@ -74,6 +79,7 @@ package k8s_plugins
 //@     invariant forall j int :: 0 <= j && j < len(p.plugins) && common.reservedBy(p.plugins[j]) ==> i <= j && j < index
 //@     invariant forall u string :: podStateOf(u) == old(podStateOf(u))
 //@     decreases index - i
+//@   ensures [iface-Plugin.PreBind] pod.Name == old(pod.Name) && pod.Namespace == old(pod.Namespace) && pod.UID == old(pod.UID)
 //@   ensures [node-name-set-iff-success] pod.Spec.NodeName == ite(result == nil, node.Name, "")
 //@   ensures [success-means-every-relevant-plugin-bound] result == nil ==> (forall i int :: 0 <= i && i < len(p.plugins) && common.relevantTo(p.plugins[i], pod) && !skipped(podStateOf(string(pod.UID)), p.plugins[i]) ==> common.boundBy(p.plugins[i]))
 //@   ensures [held-reservations-are-recorded] result == nil ==> (forall i int :: 0 <= i && i < len(p.plugins) && common.reservedBy(p.plugins[i]) ==> common.relevantTo(p.plugins[i], pod) && !skipped(podStateOf(string(pod.UID)), p.plugins[i]))
@@ -96,6 +102,7 @@ package k8s_plugins
 //@     invariant podStateOf(string(pod.UID)) == nil
 //@     invariant forall u string :: u != string(pod.UID) ==> podStateOf(u) == old(podStateOf(u))
 //@     decreases len(p.plugins) - rangeindex
+//@   ensures [iface-Plugin.Rollback] pod.Name == old(pod.Name) && pod.Namespace == old(pod.Namespace) && pod.UID == old(pod.UID) && pod.Labels == old(pod.Labels)
 //@   ensures [never-fails] result == nil
 //@   ensures [state-consumed] podStateOf(string(pod.UID)) == nil
 //@   ensures [other-pods-state-untouched] forall u string :: u != string(pod.UID) ==> podStateOf(u) == old(podStateOf(u))
